@@ -52,6 +52,7 @@ class Scal:
     const: object = None
     sym: str = None  # symbolic identity (e.g. "kw:NumberToConsider", "-kw:NumberToConsider")
     masked_const_possible: bool = False
+    nonfinite: bool = False  # a python/numpy scalar quotient whose divisor depends on the data (may be 0: inf or nan, no mask)
 
 
 @dataclass(frozen=True)
@@ -157,6 +158,7 @@ class Result(object):
         self.validates = []  # (line, arg value, node)
         self.truths = []
         self.super_calls = []  # (node, kwargs Kw snapshot, funckey)
+        self.scaldivs = []  # scalar / scalar divisions: (line, dividend, divisor, node, funckey)
         self.maskstores = []  # (line, target Arr, value, node, funckey)
         self.layer_reads = []  # (node, sel, sorted?, funckey)
         self.layer_reduces = []  # (node, sel of the reduced value, method, funckey)
@@ -1262,7 +1264,8 @@ class ArrayInterp(Interp):
             if base.tag == "ncds":
                 return Other("ncvar")
             if base.tag == "ncvar":
-                return Arr(kind="masked", alias=self.S(e), filearr=True, dt=IF_, dtprov=frozenset({"file"}), shape="same")
+                # the variable's own missing cells (its _FillValue mask) are tracked by the pseudo-token "file"
+                return Arr(kind="masked", alias=self.S(e), filearr=True, dt=IF_, dtprov=frozenset({"file"}), shape="same", M=frozenset({"file"}), D=frozenset({"file"}))
             return Other("opaque")
         if isinstance(base, Scal):
             return Scal(D=base.D, Pg=base.Pg)
@@ -1391,11 +1394,14 @@ class ArrayInterp(Interp):
                 return self.binop_arr(a, b, op, node, fr)
             return self.binop_arr(b, a, op, node, fr, swapped=True)
         if isinstance(a, Scal) and isinstance(b, Scal):
+            if isinstance(op, (ast.Div, ast.FloorDiv, ast.Mod)):
+                self.res.scaldivs.append((getattr(node, "lineno", 0), a, b, node, self.fkey(fr)))
             const = None
             if a.const is not None and b.const is not None and isinstance(op, (ast.Add, ast.Sub, ast.Mult)):
                 const = a.const + b.const if isinstance(op, ast.Add) else a.const - b.const if isinstance(op, ast.Sub) else a.const * b.const
             dt = F_ if isinstance(op, ast.Div) else promote(a.dt, b.dt)
-            return Scal(D=a.D | b.D, Pg=a.Pg | b.Pg, dt=dt, const=const)
+            nonfin = a.nonfinite or b.nonfinite or (isinstance(op, (ast.Div, ast.FloorDiv, ast.Mod)) and bool(b.D or b.Pg) and b.const is None)
+            return Scal(D=a.D | b.D, Pg=a.Pg | b.Pg, dt=dt, const=const, nonfinite=nonfin)
         if isinstance(a, Lst) and isinstance(b, Lst):
             if a.what == "shape" or b.what == "shape":
                 return Lst("shape", srcs=("stacked" if "same" in (a.srcs + b.srcs) else "unknown",))
@@ -1413,6 +1419,10 @@ class ArrayInterp(Interp):
         self.unsupported("operator on %r and %r" % (a, b), node, fr)
 
     def binop_arr(self, a, b, op, node, fr, inplace=False, swapped=False):
+        if isinstance(b, Scal) and b.nonfinite and a.shape in ("same", "stacked") and not isinstance(node, ast.Compare):
+            # A3 masks zero divisors only for array divisions; a scalar quotient computed beforehand is inf/nan and
+            # spreads over every cell of the array it is combined with
+            self.finding("nonfinite", node, "`%s` combines the whole array with a scalar quotient whose divisor is computed from the data and can be 0 (a uniform field): the division happens between scalars, nothing is masked, and inf/nan (0 * inf) reaches every non-missing cell - a clamp cannot repair nan" % _src(node), fr)
         if isinstance(op, (ast.Mult, ast.Div)) and isinstance(b, Scal) and b.sym and not isinstance(node, ast.Compare):
             self.res.weight_pairs.append((node, a.D, b.sym, self.fkey(fr)))
         kinds = [a.kind] + ([b.kind] if isinstance(b, Arr) else [])
@@ -2135,6 +2145,19 @@ class ArrayInterp(Interp):
                     return self.reduce_scalar(a0, qn.split(".")[-2], e, fr)
                 return self.axis_reduce(a0, ax, e, fr, {"minimum": "min", "maximum": "max", "add": "sum", "multiply": "prod", "fmin": "min", "fmax": "max"}.get(qn.split(".")[-2], qn.split(".")[-2]))
             return Scal()
+        if qn in ("numpy.savetxt", "numpy.save", "numpy.savez"):
+            self.res.effects.append(("file-write", e.lineno, _src(e)[:80], self.fkey(fr)))
+            return Other("none")
+        if qn in ("numpy.dot", "numpy.ma.dot", "numpy.matmul", "numpy.inner", "numpy.ma.inner", "numpy.tensordot", "numpy.einsum", "numpy.vdot", "numpy.outer", "numpy.ma.outer"):
+            arrs = [x for x in A if isinstance(x, Arr)]
+            if not arrs:
+                return Scal()
+            # a contraction pairs the last axis of one operand with the second-to-last of the other: which axis that is
+            # depends on the rank of the data (A25); numpy.ma.dot also treats masked cells as 0 unless strict=True
+            self.finding("equivariance", e, "%s contracts over an axis chosen by position: for data of rank >= 2 it mixes cells of one layer instead of combining layers (or fails), and masked cells enter as 0" % qn, fr)
+            D = frozenset().union(*[x.D for x in arrs])
+            Pc = frozenset().union(*[x.Pc | x.D for x in arrs])
+            return Arr(kind="masked" if ".ma." in qn else "plain", alias=S(), M=E, D=D, Pc=Pc, shape="unknown", dt=IF_)
         if qn in ("numpy.unique", "numpy.ma.unique"):
             if isinstance(a0, Arr):
                 vals = replace(a0, alias=S(), shape="flat", maskof=E, dataof=E, rng=(None, None))
@@ -2144,12 +2167,15 @@ class ArrayInterp(Interp):
                 pos = replace(a0, alias=S(), shape="unknown", dt=I_, maskof=E, dataof=E, rng=(None, None), kind="plain", M=E)
                 return Lst("mixed", items=(vals,) + tuple(pos for _ in extra))
             return Other("opaque")
-        if qn in ("numpy.sort", "numpy.ma.sort", "numpy.argsort", "numpy.ravel", "numpy.reshape", "numpy.transpose", "numpy.flip", "numpy.roll", "numpy.cumsum", "numpy.diff",
+        if qn in ("numpy.sort", "numpy.ma.sort", "numpy.partition", "numpy.argsort", "numpy.ravel", "numpy.reshape", "numpy.transpose", "numpy.flip", "numpy.roll", "numpy.cumsum", "numpy.diff",
                   "numpy.take", "numpy.squeeze", "numpy.expand_dims", "numpy.swapaxes", "numpy.moveaxis", "numpy.tile", "numpy.repeat", "numpy.flipud", "numpy.fliplr"):
             if isinstance(a0, Arr):
                 ax = K.get("axis", A[1] if len(A) > 1 else None)
                 if qn in ("numpy.sort", "numpy.ma.sort") and a0.shape == "stacked" and isinstance(ax, Scal) and ax.const == 0:
                     return replace(a0, alias=S(), sorted0=True)
+                if qn in ("numpy.partition",) and a0.shape == "stacked" and isinstance(K.get("axis", A[2] if len(A) > 2 else None), Scal) and K.get("axis", A[2] if len(A) > 2 else None).const == 0:
+                    # a partial sort along the layer axis: only the pivot position is in place, the layers are NOT sorted
+                    return replace(a0, alias=S(), sorted0=False)
                 if a0.shape in ("same", "stacked", "rankdep"):
                     self.finding("equivariance", e, "%s is position dependent on data axes: %s" % (qn, _src(e)), fr)
                 return replace(a0, alias=S(), shape="unknown")
